@@ -7,6 +7,8 @@ import (
 	"go/token"
 	"go/types"
 	"reflect"
+	"regexp"
+	"sort"
 	"strings"
 
 	"golang.org/x/tools/go/ssa"
@@ -145,54 +147,14 @@ func ruleP17ShiftTable(p *Prog, r *Report) {
 		c, ok := isCallTo(v, atDate, 0)
 		return ok && len(c.Common().Args) == 2 && strip(c.Common().Args[1]) == ssa.Value(now)
 	}
-	// The clock-time cell: initial store NewTimeFromGo(now), all other stores RoundToNearest(load cell, _).
-	var cell *ssa.Alloc
-	eachInstr(f, func(in ssa.Instruction) {
-		if st, ok := in.(*ssa.Store); ok {
-			if c, ok := isCallTo(st.Val, fromGoT, 0); ok && strip(c.Common().Args[0]) == ssa.Value(now) {
-				cell = cellOf(st.Addr)
-			}
-		}
-	})
-	if cell == nil {
-		r.undecided(rule, "clock-cell", p.pos(f.Pos()), "no variable initialised with NewTimeFromGo(now) found in AtTime")
-		return
+	// The time returned is described as the sequence of operations applied to the clock
+	// reading: clock [>round]* [>plus(minutes)] — through variables, helpers and closures.
+	ts := &timeSeq{p: p, now: now, fromGoT: fromGoT, round: round, visiting: map[*ssa.Alloc]bool{}}
+	nRoundSites := 0
+	for _, g := range withAnons(f) {
+		nRoundSites += len(callsTo(g, round))
 	}
-	isClock := func(v ssa.Value) bool {
-		u, ok := strip(v).(*ssa.UnOp)
-		return ok && u.Op == token.MUL && cellOf(u.X) == cell
-	}
-	sts := storesTo(cell)
-	nRound := 0
-	for _, s := range sts {
-		if _, ok := isCallTo(s.val, fromGoT, 0); ok {
-			continue
-		}
-		c, ok := isCallTo(s.val, round, 0)
-		if ok && isClock(c.Common().Args[0]) {
-			nRound++
-			continue
-		}
-		r.bad(rule, "clock-cell:store", p.instrPos(s.in), "the clock time is overwritten by something other than RoundToNearest(time, rounding)")
-	}
-	r.check(nRound >= 1, rule, "clock-cell:rounded", p.pos(cell.Pos()), fmt.Sprintf("clock time = NewTimeFromGo(now), re-assigned only by RoundToNearest (%d sites)", nRound), "rounding is never applied to the clock time")
-	noStoreAfter := func(b *ssa.BasicBlock) bool {
-		reach := reachableFrom(b, nil)
-		for _, s := range sts {
-			if s.in.Parent() == f && reach[s.in.Block()] && s.in.Block() != b {
-				return false
-			}
-			if s.in.Parent() != f {
-				// store inside a closure: the closure's call site must not be reachable from b
-				for _, mc := range closureUses(f, s.in.Parent()) {
-					if reach[mc.Block()] && mc.Block() != b {
-						return false
-					}
-				}
-			}
-		}
-		return true
-	}
+	r.check(nRoundSites >= 1, rule, "rounding-present", p.pos(f.Pos()), fmt.Sprintf("rounding is applied (%d RoundToNearest site(s))", nRoundSites), "rounding is never applied to the clock time")
 	seen := map[int64]bool{}
 	sawFallthrough := false
 	for i, ret := range returnsOf(f) {
@@ -248,29 +210,29 @@ func ruleP17ShiftTable(p *Prog, r *Report) {
 		}
 		k := posK[0]
 		seen[k] = true
-		if k == 0 {
-			ok := isClock(val) && noStoreAfter(ret.Block())
-			r.check(ok, rule, key+":k=0", p.instrPos(ret), "target date is today -> the rounded clock time as is", "for today's date the time returned is not the rounded clock time")
-			continue
+		seqs := ts.seqs(val, nil, 0)
+		bad := ""
+		for _, sq := range seqs {
+			m := timeSeqRe.FindStringSubmatch(sq)
+			switch {
+			case m == nil:
+				bad = "the time returned is " + sq + " (not the clock time, rounded, then shifted)"
+			case k == 0 && m[2] != "":
+				bad = "for today's date the clock time is shifted: " + sq
+			case k != 0 && m[2] == "":
+				bad = fmt.Sprintf("for today%+d the clock time is not shifted: %s", k, sq)
+			case k != 0 && m[2] != fmt.Sprint(-1440*k):
+				bad = fmt.Sprintf("for today%+d the clock time is shifted by %s minutes (expected %d): %s", k, m[2], -1440*k, sq)
+			}
 		}
-		if k != 1 && k != -1 {
+		if len(seqs) == 0 {
+			bad = "the time returned could not be described"
+		}
+		if k != 1 && k != -1 && k != 0 {
 			r.bad(rule, key+fmt.Sprintf(":k=%d", k), p.instrPos(ret), "a time is returned for a target date %d days from today", k)
 			continue
 		}
-		name, recv, args, call := methodCall(val)
-		okShape := name == "Plus" && len(args) == 1 && isClock(recv)
-		if !okShape {
-			r.bad(rule, key+fmt.Sprintf(":k=%d", k), p.instrPos(ret), "for today%+d the time returned is not clock.Plus(duration)", k)
-			continue
-		}
-		mins, okd := p.durationMinutes(args[0])
-		okVal := okd && mins.isConst() && mins.C == -1440*k
-		detail := "?"
-		if okd {
-			detail = mins.String()
-		}
-		r.check(okVal, rule, key+fmt.Sprintf(":k=%d", k), p.instrPos(ret), fmt.Sprintf("target date is today%+d -> clock time shifted by %s minutes", k, detail), fmt.Sprintf("target date is today%+d but the clock time is shifted by %s minutes (expected %d)", k, detail, -1440*k))
-		r.check(noStoreAfter(call.Block()), rule, key+fmt.Sprintf(":k=%d:round-first", k), p.instrPos(call), "rounding is applied before the shift", "the clock time can be re-assigned after the shift was computed")
+		r.check(bad == "", rule, key+fmt.Sprintf(":k=%d", k), p.instrPos(ret), fmt.Sprintf("target date today%+d -> %s", k, strings.Join(seqs, " | ")), bad)
 	}
 	for _, k := range []int64{0, -1, 1} {
 		r.check(seen[k], rule, fmt.Sprintf("row:k=%d", k), p.pos(f.Pos()), "row present", fmt.Sprintf("no branch returns a time for target date today%+d", k))
@@ -345,4 +307,131 @@ func ruleP17AtDateTable(p *Prog, r *Report) {
 	for _, w := range []string{"date", "yesterday", "tomorrow", "default"} {
 		r.check(seen[w], rule, "row:"+w, p.pos(f.Pos()), "row present", "no return for "+w)
 	}
+}
+
+var timeSeqRe = regexp.MustCompile(`^clock(>round)*(?:>plus\((-?\d+)\))?$`)
+
+// timeSeq describes klog.Time values inside AtTime as operation sequences on the clock reading.
+type timeSeq struct {
+	p        *Prog
+	now      *ssa.Parameter
+	fromGoT  *ssa.Function
+	round    *ssa.Function
+	visiting map[*ssa.Alloc]bool
+}
+
+func (t *timeSeq) seqs(v ssa.Value, env map[*ssa.Parameter]ssa.Value, depth int) []string {
+	if depth > 12 {
+		return []string{"?"}
+	}
+	v = strip(v)
+	uniq := func(xs []string) []string {
+		seen := map[string]bool{}
+		var out []string
+		for _, x := range xs {
+			if !seen[x] {
+				seen[x] = true
+				out = append(out, x)
+			}
+		}
+		sort.Strings(out)
+		return out
+	}
+	app := func(xs []string, op string) []string {
+		var out []string
+		for _, x := range xs {
+			out = append(out, x+">"+op)
+		}
+		return out
+	}
+	switch x := v.(type) {
+	case *ssa.Parameter:
+		if b, ok := env[x]; ok {
+			return t.seqs(b, nil, depth+1)
+		}
+		return []string{"?"}
+	case *ssa.Phi:
+		var out []string
+		for _, e := range x.Edges {
+			out = append(out, t.seqs(e, env, depth+1)...)
+		}
+		return uniq(out)
+	case *ssa.UnOp:
+		if x.Op != token.MUL {
+			return []string{"?"}
+		}
+		cell := cellOf(x.X)
+		if cell == nil {
+			return []string{"?"}
+		}
+		if t.visiting[cell] {
+			return []string{"@"}
+		}
+		t.visiting[cell] = true
+		var base, self []string
+		for _, s := range storesTo(cell) {
+			for _, sq := range t.seqs(s.val, env, depth+1) {
+				if strings.HasPrefix(sq, "@") {
+					self = append(self, sq)
+				} else {
+					base = append(base, sq)
+				}
+			}
+		}
+		delete(t.visiting, cell)
+		out := append([]string{}, base...)
+		for _, sf := range self {
+			for _, b := range base {
+				out = append(out, b+strings.TrimPrefix(sf, "@"))
+			}
+		}
+		return uniq(out)
+	case *ssa.Extract:
+		if c, ok := x.Tuple.(*ssa.Call); ok && x.Index == 0 {
+			if n, recv, args, _ := methodCallOf(c); n == "Plus" && len(args) == 1 {
+				m := "?"
+				if pl, ok := t.p.durationMinutes(args[0]); ok && pl.isConst() {
+					m = fmt.Sprint(pl.C)
+				}
+				return app(t.seqs(recv, env, depth+1), "plus("+m+")")
+			}
+		}
+	case *ssa.Call:
+		callee := staticCallee(x)
+		switch {
+		case sameFn(callee, t.fromGoT):
+			if strip(x.Call.Args[0]) == ssa.Value(t.now) {
+				return []string{"clock"}
+			}
+		case sameFn(callee, t.round):
+			return app(t.seqs(x.Call.Args[0], env, depth+1), "round")
+		case callee != nil && callee.Parent() != nil && len(callee.Params) == len(x.Call.Args):
+			// local helper: describe what it returns with its parameters bound
+			e2 := map[*ssa.Parameter]ssa.Value{}
+			for i, prm := range callee.Params {
+				e2[prm] = x.Call.Args[i]
+			}
+			// parameters that are spilled into cells: the initial store of the parameter
+			var out []string
+			for _, ret := range returnsOf(callee) {
+				if len(ret.Results) >= 1 {
+					out = append(out, t.seqsWithEnv(ret.Results[0], e2, env, depth+1)...)
+				}
+			}
+			return uniq(out)
+		}
+	}
+	return []string{"?"}
+}
+
+// seqsWithEnv evaluates inside a helper: parameters resolve through inner first, then outer.
+func (t *timeSeq) seqsWithEnv(v ssa.Value, inner, outer map[*ssa.Parameter]ssa.Value, depth int) []string {
+	merged := map[*ssa.Parameter]ssa.Value{}
+	for k, v2 := range outer {
+		merged[k] = v2
+	}
+	for k, v2 := range inner {
+		merged[k] = v2
+	}
+	return t.seqs(v, merged, depth)
 }
